@@ -196,4 +196,29 @@ RRFrame(sess, ctx, timeout, cip) == EncEnip(CmdSendRR, sess, 0, ctx, 0, EncSendD
 
 \* total length of the frame starting at offset `at' (0-based) of an octet stream, if its header is complete
 FrameLen(stream, at) == 24 + LE(SubSeq(stream, at + 3, at + 4))
+
+----------------------------------------------------------------------------
+(* Part 3: Connection Manager -- Forward Open (0x54), Large Forward Open (0x5B), Forward Close (0x4E).          *)
+(* A connection side is [id |-> 4 octets, rpi |-> 4 octets, size, variable, priority, type, redundant];          *)
+(* the Network Connection Parameters are 16 bits (size in 9 bits) or, for the large form, 32 bits (size in the   *)
+(* low word, the same flag bits in the high word).  The large form is used when either size exceeds 511.        *)
+NCPFlags(c) == c.variable * 512 + c.priority * 1024 + c.type * 8192 + c.redundant * 32768
+EncNCP(c, large) == IF large THEN U16(c.size) \o U16(NCPFlags(c)) ELSE U16(NCPFlags(c) + c.size)
+IsLargeFO(ot, to) == ot.size > 511 \/ to.size > 511
+\* fo: [prio, ticks, ot, to, serial, vendor, oserial (4 octets), mult, trigger, cpath (segments)]
+EncForwardOpen(fo) ==
+  LET lg == IsLargeFO(fo.ot, fo.to) IN
+  <<(IF lg THEN 91 ELSE 84)>> \o EncEPATH(CMPath) \o <<fo.prio, fo.ticks>> \o fo.ot.id \o fo.to.id
+  \o U16(fo.serial) \o U16(fo.vendor) \o fo.oserial \o <<fo.mult, 0, 0, 0>>
+  \o fo.ot.rpi \o EncNCP(fo.ot, lg) \o fo.to.rpi \o EncNCP(fo.to, lg) \o <<fo.trigger>> \o EncEPATH(fo.cpath)
+\* success reply: ids, serials, actual packet intervals, application reply size (words) + reserved
+EncForwardOpenReply(fo, otapi, toapi) ==
+  <<(IF IsLargeFO(fo.ot, fo.to) THEN 219 ELSE 212), 0, 0, 0>> \o fo.ot.id \o fo.to.id
+  \o U16(fo.serial) \o U16(fo.vendor) \o fo.oserial \o otapi \o toapi \o <<0, 0>>
+\* failure reply: status (+ extended words), serials, optionally the remaining path size
+EncForwardOpenFail(fo, st, ext) ==
+  <<(IF IsLargeFO(fo.ot, fo.to) THEN 219 ELSE 212), 0>> \o EncStatus(st, ext) \o U16(fo.serial) \o U16(fo.vendor) \o fo.oserial
+EncForwardClose(fo) ==
+  <<78>> \o EncEPATH(CMPath) \o <<fo.prio, fo.ticks>> \o U16(fo.serial) \o U16(fo.vendor) \o fo.oserial \o EncEPATHpad(fo.cpath)
+EncForwardCloseReply(fo) == <<206, 0, 0, 0>> \o U16(fo.serial) \o U16(fo.vendor) \o fo.oserial \o <<0, 0>>
 =============================================================================
